@@ -129,7 +129,15 @@ pub fn nick_stable(env: &Env, s: &str, compare: bool, tr: &mut Trace) -> Vec<R> 
     for i in 0..4 {
         tr.rounds = i + 1;
         match nick_round(env, &cur, compare) {
-            Err(e) => return errs(e),
+            // C06/C07 say such a string "is rejected"; only the first application sees the caller's string, so
+            // only its error is pinned (validate first, on the string as given). Which error reports a failure
+            // of a re-application - the intermediate string's BadCodepoint or a plain Invalid - is left open.
+            Err(mut e) => {
+                if i > 0 {
+                    e.push(E::Any);
+                }
+                return errs(e);
+            }
             Ok(n) => {
                 if n == cur {
                     return vec![Out::Ok(cur)];
